@@ -323,8 +323,16 @@ def check_handles(ns, case, handles):
             if rl is not None:
                 want["measurement_basis_local"] = list(rl)
                 want["measurement_basis_remote"] = list(rr)
-            if not d["post_process"]:
+            # a creator's outcome handle shows the outcome field of its pair's response; only a receiver that expects
+            # Phi+ post-processes (in the default Z/Z bases: flipped exactly for PSI_PLUS / PSI_MINUS)
+            creator = case["call"] in CREATE_CALLS
+            expect = (not creator) and case["kw"].get("expect_phi_plus", True)
+            want["post_process"] = bool(expect)
+            if not expect:
                 want["measurement_outcome"] = rs[i]["measurement_outcome"]
+            elif (rl is None or tuple(rl) == (0, 0, 0)) and (rr is None or tuple(rr) == (0, 0, 0)):
+                anti = qc.BellState(rs[i]["bell_state"]).name in ("PSI_PLUS", "PSI_MINUS")
+                want["measurement_outcome"] = rs[i]["measurement_outcome"] ^ (1 if anti else 0)
             for k, v in want.items():
                 if d[k] != v:
                     bad.append(f"result {i}.{k} = {d[k]!r}, response {i} / request says {v!r}")
